@@ -13,7 +13,18 @@ diagnostic carries an argument, run through check-express
       sits between two constructs that draw a `limits` warning);
   (d) every single-fault mutant again with warning-only declarations (all named warning classes) placed before / after /
       on both sides of it, run with default switches, -w all and -w <class>;
-  (e) two single-fault mutants of two schemas in one file (both scanner faults, or both resolver faults).
+  (e) two single-fault mutants of two schemas in one file (both scanner faults, or both resolver faults);
+  (f) inputs made of SEVERAL files (vf/c20_multi.py): a main schema that USEs / REFERENCEs two or three schemas which live
+      in their own files <schema>.exp, found through the working directory / one or two EXPRESS_PATH directories in every
+      spelling (absolute, relative, trailing slash, `.`), in fixed layouts; the single fault is placed in each file in
+      turn (main, first / middle / last library) for every fault class of the lexical, syntax and resolution phase, plus
+      "library file declares the main schema again" (PE002, quotes a second file), "library file declares another schema
+      than its name" (PE020, quotes the file), warning-only declarations in each file under -w all, and two faults in
+      two different files;
+  (g) a deterministic matrix of duplicate names of every kind (vf/c20_dups.py): two declarations of each pair of kinds in
+      one schema, formal parameters / locals, attributes (explicit / derived / inverse, SELF\\super.attr redeclared
+      twice), enumeration items, WHERE / UNIQUE labels, USE / REFERENCE ... AS clashes (exporting schemas in the same
+      file and in their own files).
 
 Oracle:
   lexical       every PE030..PE033 diagnostic of every run is compared with the input itself: the quoted non-hex digit /
@@ -27,6 +38,14 @@ Oracle:
                 recorded by the injector);
   line          that diagnostic carries the line of the offending lexeme (1-based).  A shift common to (nearly) all
                 diagnostics is reported once, as one finding, and the remaining checks are made relative to it;
+  several files every diagnostic names a file of the input (the printed name is resolved against the working directory, any
+                spelling of the path is accepted for library files); the diagnostic of the fault names the file that holds
+                the fault and a line of THAT file; a name quoted by an undefined / duplicate / unknown-x diagnostic is written
+                in the file the diagnostic names; a file named inside the message (previous declaration "in file", "own
+                schema file") is the right one; no redeclaration diagnostic for a name that is declared once;
+  duplicates    the identifier quoted by PE001 / PE002 is the name that is declared twice (never `(null)`, never the
+                original name behind an AS), on the line of the second declaration, previous line = first declaration
+                (interface clashes: either order); shapes stepcode accepts silently are counted, not judged;
   switches      with any -w/-i combination the exit status and the multiset of ERROR lines equal those of the default run,
                 and the WARNING lines differ from it exactly by the toggled class.
 Keys: `<fault class> PE<code> x check-express|<symptom>`; switch matrix: `warning switch ... x check-express|<symptom>`.
@@ -37,7 +56,9 @@ import zlib
 
 from .. import c04_faults as F
 from .. import c04_run as R
+from .. import c20_dups as D
 from .. import c20_lex as L
+from .. import c20_multi as MU
 from .. import run
 
 TOOL = 'check-express'
@@ -47,7 +68,9 @@ ID = r'[A-Za-z_][A-Za-z0-9_]*'
 # ---- identifiers that must come from the input.
 FORMATS = {
     1: r'Redeclaration of (?P<name_id>.*)\.  Previous declaration was on line (?P<prev>-?\d+)\.',
+    2: r'Redeclaration of (?P<name_id>.*)\.  Previous declaration was on line (?P<prev>-?\d+) in file (?P<pfile>.*)\.',
     8: r'Attribute (?P<name_id>.*) cannot be referenced from a non-entity',
+    20: r'Schema (?P<name_id>.*) was not found in its own schema file \((?P<pfile>.*)\)',
     17: r'Syntax error in (?P<kind>[a-z_ ]+?) (?P<scope_id>\S*)',
     18: r'USE/REF of non-existent object \((?P<name_id>.*) in schema (?P<schema_id>.*)\)',
     29: r'unterminated string literal',
@@ -127,7 +150,11 @@ PRIMARY = {
     'unterminated_string': (29, []),
     'wrong_arg_count': (55, [_eq('name_id', 'lexeme'), _eq('uses', 'ctx:uses'), _eq('expected', 'ctx:expected')]),
 }
+PRIMARY['dup_schema_other_file'] = (2, [_eq('name_id', 'lexeme'), _eq('prev', 'first_line')])
+PRIMARY['schema_not_in_own_file'] = (20, [_eq('name_id', 'lexeme')])
 NEEDS_WARNINGS_ON = ('wrong_arg_count',)
+# codes whose first quoted identifier is written at the reported place itself (so it occurs in the file the diagnostic names)
+NAME_AT_SITE = (1, 2, 18, 36, 37, 38, 39, 40, 41, 42, 52, 54, 55, 59, 64, 65)
 ARG_CLASSES = [c for c in F.CLASS_IDS if c in PRIMARY]
 
 
@@ -193,11 +220,7 @@ class Judge(object):
             self.add(None, 'diagnostic line not in the file:line: form', raw[:200])
         pcode, pargs = PRIMARY[self.cid]
         for d in tr.diags:
-            if d.file is None:
-                self.add(d.code, 'diagnostic not attributed to any file', d.raw[:200])
-            elif d.file != tr.given:
-                self.add(d.code, 'diagnostic attributed to %s' % ('another spelling of the input path' if d.file.split('/')[-1] == tr.given.split('/')[-1]
-                                                                  else 'another file'), 'given %r, printed %r' % (tr.given, d.file))
+            self.check_file(d)
             fm = FORMATS.get(d.code)
             if fm is None:
                 continue
@@ -206,8 +229,9 @@ class Judge(object):
                 self.add(d.code, 'message text does not fit the format of its code', d.raw[:200])
                 continue
             g = mm.groupdict()
+            self.check_args_in_file(d, g)
             for k, v in g.items():
-                if d.code == 17 and g['kind'].endswith('file') and v == tr.given:
+                if d.code == 17 and g['kind'].endswith('file') and self.names_input_file(v):
                     continue      # a syntax error outside every schema is reported "in express file <path as given>"
                 if k.endswith('_id') and not (re.match('^' + ID + '$', v) and v.lower() in self.ids):
                     if not (d.code == pcode and k in dict(pargs)):      # reported below with the expected value
@@ -223,12 +247,34 @@ class Judge(object):
                     continue
                 if self.primary_ok_target(g, pargs):
                     self.primary_seen = True
+                    self.check_primary_file(d, g)
                     self.line_obs.append((d.code, d.line, allowed_lines(m, self.cid), len(allowed_lines(m, self.cid)) == 1))
                     if 'prev' in g:
                         self.prev_obs.append((int(g['prev']), m.first_line))
         if not self.primary_seen:
             self.primary_missing(pcode, pargs)
         return self
+
+    # ---- attribution (single-file input: every diagnostic carries the input path as given; MultiJudge overrides)
+    def check_file(self, d):
+        tr = self.tr
+        if d.file is None:
+            self.add(d.code, 'diagnostic not attributed to any file', d.raw[:200])
+        elif d.file != tr.given:
+            self.add(d.code, 'diagnostic attributed to %s' % ('another spelling of the input path' if d.file.split('/')[-1] == tr.given.split('/')[-1]
+                                                              else 'another file'), 'given %r, printed %r' % (tr.given, d.file))
+
+    def check_args_in_file(self, d, g):
+        pass
+
+    def check_primary_file(self, d, g):
+        pass
+
+    def names_input_file(self, v):
+        return v == self.tr.given
+
+    def nlines_for(self, d):
+        return self.nlines
 
     def primary_ok_target(self, g, pargs):
         """True when this diagnostic of the primary code is the one about the injected fault (all arguments as recorded).
@@ -264,6 +310,72 @@ class Judge(object):
                 self.line_obs.append((d.code, d.line, allowed_lines(self.m, self.cid), len(allowed_lines(self.m, self.cid)) == 1))
             return
         self.add(pcode, 'message text does not fit the format of its code', cands[0].raw[:200])
+
+
+class MultiJudge(Judge):
+    """Judge for an input made of several files (vf/c20_multi.py): the fault lies in ONE of them; every diagnostic must
+    name a file of the input, the diagnostic of the fault must name the faulty file (whatever spelling of its path is
+    printed: the printed name is resolved against the working directory), line numbers are lines of that file."""
+
+    def __init__(self, mf, mr):
+        texts = dict((MU.lname(mf.base, j), t) for j, t in enumerate(mf.texts))
+        Judge.__init__(self, mf, mr.tr, '\n'.join(texts[k] for k in sorted(texts)))
+        self.mr = mr
+        self.file_ids = dict((k, idents(t)) for k, t in texts.items())
+        self.file_nlines = dict((k, t.count('\n') + 1) for k, t in texts.items())
+        self.flagged = set()
+
+    def check_file(self, d):
+        mr = self.mr
+        if d.file is None:
+            if d.code != 20:      # "Schema x was not found in its own schema file (<file>)" names its file in the text
+                self.add(d.code, 'diagnostic not attributed to any file', d.raw[:200])
+            return
+        if d.code in (1, 2) and not self.m.cid.startswith('dup_'):
+            # every name of the input is declared once (only the dup_* classes declare one twice)
+            self.add(d.code, 'redeclaration reported for a name that is declared once', '%r; the only fault is %s %r in %s'
+                     % (mr.strip(d.raw[:200]), self.m.cid, self.m.lexeme, self.m.fault_file))
+        ln = mr.logical(d)
+        if ln is None:
+            self.flagged.add(id(d))
+            self.add(d.code, 'diagnostic attributed to a file that is not part of the input', '%r; files of the input: %s; EXPRESS_PATH=%r'
+                     % (mr.strip(d.raw[:200]), sorted(self.file_ids), mr.express_path))
+        elif ln not in self.file_ids:
+            self.flagged.add(id(d))
+            self.add(d.code, 'diagnostic attributed to another file', '%r names the %s, which the tool had no reason to read' % (mr.strip(d.raw[:200]), ln))
+        elif ln == 'main.exp' and d.file != self.tr.given and self.m.layout[3] != 'path':
+            self.add(d.code, 'diagnostic attributed to another spelling of the input path', 'given %r, printed %r' % (mr.strip(self.tr.given), mr.strip(d.file)))
+
+    def check_args_in_file(self, d, g):
+        ln = self.mr.logical(d)
+        v = g.get('name_id')
+        if d.code in NAME_AT_SITE and ln in self.file_ids and v is not None and id(d) not in self.flagged:
+            if re.match('^' + ID + '$', v) and v.lower() in self.ids and v.lower() not in self.file_ids[ln]:
+                self.flagged.add(id(d))
+                homes = sorted(k for k, ids in self.file_ids.items() if v.lower() in ids)
+                self.add(d.code, 'diagnostic attributed to another file', '%r: %r is not written anywhere in %s, only in %s' % (self.mr.strip(d.raw[:200]), v, ln, homes))
+
+    def check_primary_file(self, d, g):
+        ln = self.mr.logical(d)
+        if d.file is not None and ln is not None and ln != self.m.fault_file and id(d) not in self.flagged:
+            self.flagged.add(id(d))
+            self.add(d.code, 'diagnostic attributed to another file', '%r: the fault (%r, line %s) is in %s; EXPRESS_PATH=%r'
+                     % (self.mr.strip(d.raw[:200]), self.m.lexeme, self.m.line, self.m.fault_file, self.mr.express_path))
+        if 'pfile' in g and 'own_file' in self.m.ctx:
+            pl = self.mr.logical_path(g['pfile'])
+            if pl != self.m.ctx['own_file']:
+                self.add(d.code, 'file named in the message wrong', '%r: the file that was read for schema %r is %s; EXPRESS_PATH=%r'
+                         % (self.mr.strip(d.raw[:200]), self.m.lexeme, self.m.ctx['own_file'], self.mr.express_path))
+        if 'pfile' in g and 'first_file' in self.m.ctx:
+            pl = self.mr.logical_path(g['pfile'])
+            if pl != self.m.ctx['first_file']:
+                self.add(d.code, 'file of the previous declaration wrong', '%r: the first declaration is in %s' % (self.mr.strip(d.raw[:200]), self.m.ctx['first_file']))
+
+    def names_input_file(self, v):
+        return self.mr.logical_path(v) in self.file_ids
+
+    def nlines_for(self, d):
+        return self.file_nlines.get(self.mr.logical(d), max(self.file_nlines.values()))
 
 
 def how_for(m, salt=''):
@@ -356,13 +468,15 @@ def same_verdict(what, base, tr, names):
 def settle_lines(j, shift):
     """Line findings of one Judge once the common shift is known (appends to j.out)."""
     for code, line, allowed, single in j.line_obs:
+        if line is None and code == 20:
+            continue          # "Schema x was not found in its own schema file (<file>)" is about a whole file
         if line is None or (line - shift) not in allowed:
             j.add(code, 'line number wrong', 'reported %s, lexeme on line %s (allowed %s, common shift %+d)' % (line, j.m.line, sorted(allowed), shift))
     for prev, first in j.prev_obs:
         if prev - shift != first:
             j.add(1, 'previous-declaration line wrong', 'says line %d, first declaration on line %d (common shift %+d)' % (prev, first, shift))
     for d in j.tr.diags:
-        if d.line is not None and not (1 <= d.line - shift <= j.nlines):
+        if d.line is not None and not (1 <= d.line - shift <= j.nlines_for(d)):
             j.add(d.code, 'line number outside the file', d.raw[:160])
 
 
@@ -672,6 +786,173 @@ def main(chk):
             chk.sample(dict(cid='two_faults', pair=p.describe(), stderr=tr.r.err[:600], findings=[k for k, _w in finds]))
     chk.count('two-fault files', len(prs))
 
+    # ---------------- (f) inputs made of several files: the fault in each file in turn, every phase
+    n_models = len(MU.LAYOUTS) if quick else 5 * len(MU.LAYOUTS)
+    MF_CLASSES = [c for c in MU.LEXICAL + MU.SYNTAX + MU.RESOLVE + MU.EXTRA if c in PRIMARY]
+    mjobs = []
+    for i in range(n_models):
+        f = MU.model(chk.seed, i)
+        lay = MU.LAYOUTS[i % len(MU.LAYOUTS)]
+        mjobs.append(MU.valid_input(f, lay))
+        mjobs += MU.faults(f, chk.seed, lay, MF_CLASSES)
+        mjobs += MU.warn_inputs(f, lay)
+
+    def mwork(mf):
+        args = ('-w', 'all') if mf.cid in NEEDS_WARNINGS_ON or mf.cid == 'warn_in_file' else ()
+        return mf, MU.run_files(TOOL, mf.files(), 'main.exp', how=mf.layout[3], path=mf.layout[1], args=args)
+    bad_models = set()
+    mres = list(run.pmap(mwork, mjobs))
+    for mf, mr in mres:
+        if mf.cid == 'valid' and (mr.tr.r.rc != 0 or mr.tr.diags or mr.tr.r.sig):
+            bad_models.add(mf.base.name)
+            chk.inconc('multi-file model %s (%s) is not accepted fault-free: %s' % (mf.base.name, mf.layout[0], mr.strip(mr.tr.r.err[:300])))
+    n_mf = n_mf_lib = n_mf_sig = 0
+    for mf, mr in mres:
+        chk.ev()
+        tr = mr.tr
+        if mf.base.name in bad_models or mf.cid == 'valid':
+            continue
+        if tr.r.timed_out:
+            chk.inconc('watchdog fired on multi-file input %s of %s' % (mf.cid, mf.base.name))
+            continue
+        files = dict((MU.lname(mf.base, j), t) for j, t in enumerate(mf.texts))
+        case = dict(mutant=mf.describe(), EXPRESS_PATH=mr.express_path, given_path=mr.strip(tr.given), stderr=mr.strip(tr.r.err[:1500]))
+        chk.tag('multi-file layout:' + mf.layout[0])
+        chk.tag('multi-file fault in:' + ('main file' if mf.k == 0 else 'library file'))
+        if mf.cid == 'warn_in_file':
+            finds = []
+            codes = set()
+            if tr.r.sig:
+                n_mf_sig += 1
+                continue
+            if tr.r.rc != 0 or tr.errors:
+                finds.append(('multi-file input: warning-only declarations x %s|exit status changed' % TOOL, 'exit %s, stderr %r' % (tr.r.rc, mr.strip(tr.r.err[:300]))))
+            for d in tr.warnings:
+                codes.add(d.code)
+                ln = mr.logical(d)
+                k = 'multi-file input: warning PW%03d x %s' % (d.code, TOOL)
+                if ln is None:
+                    finds.append((k + '|diagnostic attributed to a file that is not part of the input', mr.strip(d.raw[:200])))
+                elif ln != mf.fault_file:
+                    finds.append((k + '|diagnostic attributed to another file', '%r: the only declarations that draw warnings are in %s' % (mr.strip(d.raw[:200]), mf.fault_file)))
+                elif d.line is None or (d.line - shift) not in mf.warn_lines:
+                    finds.append((k + '|line number wrong', '%r: the declarations that draw warnings are on lines %d, %d-%d' % (
+                        mr.strip(d.raw[:200]), min(mf.warn_lines), sorted(mf.warn_lines)[1], max(mf.warn_lines))))
+                fm = FORMATS.get(d.code)
+                mm = fm.match(d.msg) if fm else None
+                if fm and not mm:
+                    finds.append((k + '|message text does not fit the format of its code', d.raw[:200]))
+                elif mm and 'name_id' in mm.groupdict() and not mm.group('name_id').startswith('zw%d_' % mf.k):
+                    finds.append((k + '|argument text wrong: got %s' % text_class(mm.group('name_id'), idents(mf.text)), d.raw[:200]))
+            chk.seen('multi-file warnings', mf.layout[0], mf.k, tuple(sorted(codes)))
+            chk.count('multi-file inputs with warnings of >= 5 codes in one file', 1 if len(codes) >= 5 else 0)
+            for key, what in finds:
+                chk.violation(key, what, files, case)
+            continue
+        if tr.r.sig:
+            n_mf_sig += 1
+            chk.count('runs ended by signal (judged by C04/C06)')
+            continue
+        n_mf += 1
+        n_mf_lib += 1 if mf.k else 0
+        j = MultiJudge(mf, mr).judge()
+        settle_lines(j, shift)
+        for lname_, t in files.items():
+            j.out += L.lex_findings(t, [d for d in tr.diags if mr.logical(d) == lname_], shift, TOOL)
+        for d in tr.diags:
+            chk.seen('multi-file', mf.cid, 'main' if mf.k == 0 else 'lib', mf.layout[0], d.code)
+        chk.tag('multi-file phase:' + MU.PHASE[mf.cid])
+        seen_k = set()
+        for key, what in j.out:
+            if (key, what) in seen_k:
+                continue
+            seen_k.add((key, what))
+            chk.violation(key, what, files, case)
+        if mf.cid == 'undef_type' and mf.k == 1 and not any(s.get('cid') == 'multi_file' for s in chk.samples):
+            chk.sample(dict(cid='multi_file', mutant=mf.describe(), EXPRESS_PATH=mr.express_path, given_path=mr.strip(tr.given), files=sorted(mf.files()),
+                            stderr=mr.strip(tr.r.err[:600]), findings=[k for k, _w in j.out]), limit=7)
+    # two faults in two different files of one model
+    mfs = [mf for mf, mr in mres if mf.cid not in ('valid', 'warn_in_file') and mf.base.name not in bad_models and not mr.tr.r.sig and not mr.tr.r.timed_out]
+    mpairs = MU.two_file_pairs(mfs, chk.seed, 6 if quick else 12)
+
+    def mpwork(t):
+        a, b, merged = t
+        return t, MU.run_files(TOOL, merged.files(), 'main.exp', how=merged.layout[3], path=merged.layout[1])
+    for (a, b, merged), mr in run.pmap(mpwork, mpairs):
+        chk.ev()
+        tr = mr.tr
+        if tr.r.timed_out or tr.r.sig:
+            chk.count('runs ended by signal (judged by C04/C06)', 1 if tr.r.sig else 0)
+            continue
+        chk.seen('multi-file pair', merged.phase, a.cid, b.cid, merged.layout[0])
+        chk.tag('multi-file two faults in two files:' + merged.phase)
+        files = dict((MU.lname(merged.base, j), t) for j, t in enumerate(merged.texts))
+        finds = []
+        for lname_, t in files.items():
+            finds += L.lex_findings(t, [d for d in tr.diags if mr.logical(d) == lname_], shift, TOOL)
+        for d in tr.diags:
+            if d.file is not None and mr.logical(d) not in files:
+                finds.append(('%s PE%03d x %s|diagnostic attributed to a file that is not part of the input' % (merged.cls, d.code, TOOL), mr.strip(d.raw[:200])))
+        for which, m in (('first', a), ('second', b)):
+            pcode, pargs = PRIMARY[m.cid]
+            ok_lines = allowed_lines(m, m.cid)
+            hit = wrong_file = None
+            for d in tr.errors:
+                mm = FORMATS[pcode].match(d.msg) if d.code == pcode else None
+                if not mm or d.line is None or (d.line - shift) not in ok_lines:
+                    continue
+                g = mm.groupdict()
+                if all(what == 'first_line' or g.get(field) in expected_value(m, what) for field, what in pargs[:1]):
+                    if mr.logical(d) == m.fault_file:
+                        hit = d
+                    else:
+                        wrong_file = d
+            if not hit:
+                sym = 'diagnostic attributed to another file' if wrong_file else '%s fault not reported with its own text and line' % which
+                finds.append(('%s x %s|%s' % (merged.cls, TOOL, sym), '%s fault %s %r on line %d of %s: %s; stderr %r' % (
+                    which, m.cid, m.lexeme, m.line, m.fault_file, ('reported as %r' % mr.strip(wrong_file.raw[:160])) if wrong_file else 'no PE%03d quoting it there' % pcode,
+                    mr.strip(tr.r.err[:700]))))
+        for key, what in finds:
+            chk.violation(key, what, files, dict(first=a.describe(), second=b.describe(), EXPRESS_PATH=mr.express_path, stderr=mr.strip(tr.r.err[:1500])))
+    chk.count('multi-file inputs with two faults in two files', len(mpairs))
+    chk.count('multi-file models', n_models)
+    chk.count('multi-file single-fault inputs judged', n_mf)
+    chk.count('multi-file single-fault inputs with the fault in a library file', n_mf_lib)
+
+    # ---------------- (g) duplicate names of every kind
+    dcases = D.all_cases(chk.seed)
+
+    def dwork(c):
+        if c.path is None:
+            files = dict((n, ('src', n, t)) for n, t in c.files.items())
+            return c, MU.run_files(TOOL, files, c.main, how='abs', path=None)
+        lay = MU.LAYOUTS[zlib.crc32(c.shape.encode()) % len(MU.LAYOUTS)]
+        libs = sorted(n for n in c.files if n != c.main)
+        files = dict((n, (lay[2][libs.index(n) % len(lay[2])] if n != c.main else 'src', n, t)) for n, t in c.files.items())
+        return c, MU.run_files(TOOL, files, c.main, how=lay[3], path=lay[1])
+    n_dup_diag = 0
+    for c, mr in run.pmap(dwork, dcases):
+        chk.ev()
+        if mr.tr.r.timed_out:
+            chk.inconc('watchdog fired on duplicate-name case %r' % (c.shape,))
+            continue
+        if mr.tr.r.sig:
+            chk.count('runs ended by signal (judged by C04/C06)')
+            continue
+        finds, diagnosed = D.dup_findings(c, mr, shift, TOOL)
+        chk.tag('duplicate name:' + c.family)
+        if diagnosed:
+            n_dup_diag += 1
+            chk.seen('dup', c.family, c.shape)
+        else:
+            chk.count('duplicate-name cases accepted without a diagnostic (nothing to judge; accept/reject is C04)')
+        for key, what in finds:
+            chk.violation(key, what, c.files, dict(case=c.describe(), EXPRESS_PATH=mr.express_path, stderr=mr.strip(mr.tr.r.err[:800])))
+        if c.family == 'interface' and diagnosed and not any(s.get('cid') == 'dup_matrix' for s in chk.samples):
+            chk.sample(dict(cid='dup_matrix', case=c.describe(), stderr=mr.strip(mr.tr.r.err[:400]), findings=[k for k, _w in finds]), limit=7)
+    chk.count('duplicate-name cases', len(dcases))
+    chk.count('duplicate-name cases diagnosed and judged', n_dup_diag)
+
     return chk.finish(
         rule='single-fault mutants (vf/c04_faults.py) of %d generated valid files (%d multi-schema), one per argument-carrying fault class '
              '(%d classes) and file, run by check-express with the path given in 3 forms; switch matrix over the %d advertised warning names '
@@ -681,8 +962,14 @@ def main(chk):
              'fixed places), each under default, -w all, -w limits, distinct = (family, shape, codes printed); + every mutant wrapped in warning-only '
              'declarations before / after / around it (%d wrapped inputs; the mutants of 2 files in all 3 positions under -w all, every -w <class> and '
              '-w all -i <class>, the others in one position under -w all and 2 classes), distinct = (fault class, position, switch kind); + %d files '
-             'holding two faults of two schemas, distinct = (phase, class 1, class 2)'
-             % (n_files, n_multi, len(ARG_CLASSES), len(classes), step, len(lex_cases), len(L.LENS), len(wrapped), len(prs)),
+             'holding two faults of two schemas, distinct = (phase, class 1, class 2); + %d multi-file models (main + 2..3 library schemas in their own '
+             'files, %d fixed layouts of working directory / EXPRESS_PATH directories) x fault in each file in turn x %d fault classes of the lexical, '
+             'syntax and resolution phase (%d single-fault inputs, %d with the fault in a library file), warning-only declarations in each file, %d '
+             'inputs with two faults in two files, distinct = (fault class, main|library, layout, diagnostic code); + %d fixed duplicate-name shapes '
+             '(scope pairs of kinds, parameters / locals, attributes incl. SELF\\super.attr, enumeration items, rule labels, USE / REFERENCE AS '
+             'clashes in one file and in a file per schema; %d diagnosed and judged), distinct = (family, shape)'
+             % (n_files, n_multi, len(ARG_CLASSES), len(classes), step, len(lex_cases), len(L.LENS), len(wrapped), len(prs),
+                n_models, len(MU.LAYOUTS), len(MF_CLASSES), n_mf, n_mf_lib, len(mpairs), len(dcases), n_dup_diag),
         assumptions=['message formats and the warning class -> code table are transcribed from LibErrors[] in src/express/error.c and serve as the specification',
                      'the injector records lexeme and 1-based line correctly (lines are found by searching the printed text for the unique lexeme)',
                      'file:line: diagnostics are expected to be 1-based like every compiler-style diagnostic; a shift common to >= 90% of the judged '
@@ -693,5 +980,11 @@ def main(chk):
                      'wrapped fault are compared between switch settings of the SAME file, never with the unwrapped file',
                      'two faults in one file: only pairs whose diagnostics come from the same phase (scanner/scanner, resolver/resolver, no fatal '
                      'severity), since a failed phase legitimately ends the run',
+                     'multi-file inputs: a printed file name denotes the file it resolves to from the working directory of the tool (no symbolic links '
+                     'in the scratch tree); every identifier of a generated model is declared once and the schemas use disjoint name prefixes, so a quoted '
+                     'name identifies the file it was taken from; a fault of the first pass in the main file ends the run before library files are read',
+                     'duplicate-name matrix: each shape declares exactly one name twice in one scope (ISO 10303-11 clause 10: one declaration per name and '
+                     'scope); for a shape the tool accepts without any diagnostic (duplicate UNIQUE labels, USE alias = REFERENCE alias, alias = local '
+                     'declaration) there is no diagnostic text to judge - accepting it is the concern of C04',
                      'while every -w/-i run dies (open finding) the switch-invariance clause and the wrong-argument-count warning are not observable; '
                      'unmasked_fraction_switch_matrix in the evidence says how much of the matrix was judged'])
